@@ -160,3 +160,17 @@ Proof.
   split; [split; [split; [reflexivity |] |]; repeat constructor |].
   split; [reflexivity |]. split; [split; reflexivity | reflexivity].
 Qed.
+
+(* the key, MAC and IV lengths with which the specification cuts the key block are the ones of the library's
+   cipher-suite table: Model/GenConsts.v is regenerated from the repository under test (tools/consts) before
+   every build; every row of both stacks' tables carries the lengths of lens_of for its protection mode *)
+From V Require Import Model.GenConsts Proofs.TieSuites.
+Theorem C04_key_lengths_are_the_sources : forall r,
+  In r GenConsts.T.cipherSuites \/ In r GenConsts.D.cipherSuites ->
+  exists id kl ml il fl ids, r = (id, [id; kl; ml; il; fl], ids) /\
+     ([kl; ml; il] = TieSuites.lens_row MCbc \/ [kl; ml; il] = TieSuites.lens_row MGcm).
+Proof.
+  intros r [H|H]; [exact (TieSuites.table_row_lens _ _ _ _ r TieSuites.t_table H)
+                  | exact (TieSuites.table_row_lens _ _ _ _ r TieSuites.d_table H)].
+Qed.
+Print Assumptions C04_key_lengths_are_the_sources.
